@@ -14,6 +14,7 @@ import (
 	"reflect"
 	"runtime"
 	"strings"
+	"sync"
 	"time"
 	"unsafe"
 
@@ -25,8 +26,8 @@ import (
 )
 
 const (
-	readTimeoutMs    = 300
-	initialUDPMs     = 250
+	readTimeoutMs    = 500
+	initialUDPMs     = 300
 	slackMs          = 3000 // generous: the machine is shared and loaded
 	maxWaitsPerCall  = 12   // model theorem call_requests_bounded: at most this many waited requests per API call
 	closeDuringAfter = 60 * time.Millisecond
@@ -127,6 +128,7 @@ const (
 	cResolve       = 27
 	cH264PM0       = 28
 	cNoContentBase = 29
+	cDifferentURLs = 34 // caller passed a base URL other than the session's: outside the model
 	cSkipped       = 98
 	cOther         = 99
 )
@@ -158,6 +160,7 @@ func classify(err error) int {
 		e23 liberrors.ErrClientUDPTimeout
 		e24 liberrors.ErrClientTCPTimeout
 		e28 liberrors.ErrClientH264PacketizationMode0
+		e34 liberrors.ErrClientCannotSetupMediasDifferentURLs
 	)
 	switch {
 	case errors.As(err, &e1):
@@ -204,6 +207,8 @@ func classify(err error) int {
 		return cTCPTimeout
 	case errors.As(err, &e28):
 		return cH264PM0
+	case errors.As(err, &e34):
+		return cDifferentURLs
 	}
 	msg := err.Error()
 	switch {
@@ -220,6 +225,13 @@ func classify(err error) int {
 	case strings.HasPrefix(msg, "parse "), strings.HasPrefix(msg, "unsupported scheme"),
 		strings.HasPrefix(msg, "URLs with"):
 		return cURLParse
+	}
+	// what the reader goroutine reports when the bytes are not RTSP (pkg/base parse errors)
+	for _, pre := range []string{"expected '", "unable to parse status code", "headers count exceeds", "value is missing",
+		"buffer length exceeds", "invalid Content-Length", "Content-Length exceeds", "invalid magic byte", "empty method", "invalid URL ("} {
+		if strings.HasPrefix(msg, pre) {
+			return cConn
+		}
 	}
 	var ne net.Error
 	if errors.As(err, &ne) || strings.Contains(msg, "EOF") || strings.Contains(msg, "connection") ||
@@ -293,10 +305,10 @@ func localMedias(n int) []*description.Media {
 	return out
 }
 
-func runCase(cs *Case) (res Result) {
+func runCase(cs *Case, onRec func(reqRecord)) (res Result) {
 	res.ID = cs.ID
 	fd0 := socketFDs()
-	srv, err := newServer(cs)
+	srv, err := newServer(cs, onRec)
 	if err != nil {
 		res.Fatal = "server: " + err.Error()
 		return
@@ -371,6 +383,7 @@ func runCase(cs *Case) (res Result) {
 		desc = &description.Session{BaseURL: bu, Medias: localMedias(cs.Cfg.NMedia)}
 	}
 	var annDesc *description.Session
+	setupDone := map[int]bool{}
 	closedByHarness := false
 	closeRet := make(chan struct{})
 	startClose := func() {
@@ -397,13 +410,20 @@ func runCase(cs *Case) (res Result) {
 				return e
 			}
 		case opSetup:
-			if desc == nil || st.Arg >= len(desc.Medias) {
+			// the caller never sets up a media it has already set up (that would be its own mistake)
+			if desc == nil || st.Arg >= len(desc.Medias) || setupDone[st.Arg] {
 				cr.Class = cSkipped
 				res.Calls = append(res.Calls, cr)
 				continue
 			}
-			d, m := desc, desc.Medias[st.Arg]
-			fn = func() error { _, e := c.Setup(d.BaseURL, m, 0, 0); return e }
+			d, m, mi := desc, desc.Medias[st.Arg], st.Arg
+			fn = func() error {
+				_, e := c.Setup(d.BaseURL, m, 0, 0)
+				if e == nil {
+					setupDone[mi] = true
+				}
+				return e
+			}
 		case opPlay:
 			fn = func() error { _, e := c.Play(nil); return e }
 		case opRecord:
@@ -542,6 +562,14 @@ func runCase(cs *Case) (res Result) {
 		res.AfterMs = int(time.Since(t1).Milliseconds())
 	}
 
+	// let the server read what the client wrote last (it is asynchronous)
+	for {
+		_, _, _, last := srv.snapshot()
+		if time.Since(last) >= 40*time.Millisecond {
+			break
+		}
+		time.Sleep(10 * time.Millisecond)
+	}
 	res.NReq, res.Records, res.Storm, _ = srv.snapshot()
 	srv.close()
 	serverClosed = true
@@ -574,13 +602,24 @@ func childMain() {
 			}
 			fmt.Fprintf(out, "BEGIN %d\n", cs.ID)
 			out.Flush()
-			r := runCase(&cs)
+			var omu sync.Mutex
+			r := runCase(&cs, func(rec reqRecord) {
+				b, _ := json.Marshal(rec)
+				omu.Lock()
+				out.WriteString("REC ")
+				out.Write(b)
+				out.WriteByte('\n')
+				out.Flush()
+				omu.Unlock()
+			})
+			omu.Lock()
 			b, _ := json.Marshal(r)
 			out.Write(b)
 			out.WriteByte('\n')
 			out.Flush()
-			if r.Fatal == "stuck" {
-				os.Exit(4)
+			omu.Unlock()
+			if r.Fatal == "stuck" || len(r.Leaks) > 0 || r.FdLeak > 0 || r.CloseHang {
+				os.Exit(4) // this process is dirty: later cases must not inherit its leftovers
 			}
 		}
 		if err != nil {
